@@ -174,7 +174,7 @@ func genBigMsg(r *engine.PRNG) MsgSpec {
 func genMsg(r *engine.PRNG, maxLen int) MsgSpec {
 	m := MsgSpec{Seed: r.Uint64()}
 	m.Kind = r.PickStr("bytes", "bytes", "string", "legacy", "legacy")
-	lens := []int{0, 0, 1, 2, 31, 32, 33, 127, 128, 129, 200, 4095, 4096, 4097}
+	lens := []int{0, 0, 1, 2, 31, 32, 33, 127, 128, 129, 200, 255, 256, 257, 511, 512, 513, 1023, 1024, 1025, 4095, 4096, 4097, 65535, 65536, 65537}
 	m.Len = lens[r.Intn(len(lens))]
 	if r.Chance(1, 4) {
 		m.Len = int(r.Range(0, 8192))
